@@ -290,6 +290,17 @@ func runGwHistory(rng *rand.Rand, w *Writer, suite string, malformed bool) {
 			events = append(events, fmt.Sprintf("%s,%x,%s,%d", op, e, net.ParseIP(ip).String(), b01(strict)))
 			obs = append(obs, fmt.Sprintf("R%d", b01(err == nil)))
 			w.Count("gw.registry." + op)
+			// the change must be in force for the very next datagram: probe from every socket
+			if rng.Intn(2) == 0 {
+				for si := range gw.socks {
+					tok := uint16(rng.Intn(65536))
+					en := rxEntry{tmst: rng.Uint32(), ch: uint8(rng.Intn(8)), datr: datrs[rng.Intn(len(datrs))], rssi: -50, lsnr: "7.25", data: randBytes(rng, 1+rng.Intn(20))}
+					pkt := append(header(2, tok, 0, e), []byte(`{"rxpk":[`+entryJSON(en)+`]}`)...)
+					gw.socks[si].WriteToUDP(pkt, gw.addrFor(si))
+					step(fmt.Sprintf("G,%d,%s,valid,%d/%d/%d/%s/%d/%s/%s", si, hx(pkt), en.tmst, en.ch, en.rfch, en.datr, en.rssi, en.lsnr, hx(en.data)), false)
+					w.Count("gw.push_data.probe")
+				}
+			}
 		case r < 4: // PULL_DATA
 			si := rng.Intn(len(gw.socks))
 			tok := uint16(rng.Intn(65536))
